@@ -58,7 +58,9 @@ TraceInit ==
 StepReset(e) ==
   /\ e.ev = "Reset"
   /\ scen' = e
-  /\ tprop' = NoTerms
+  \* the terms the leader is asked to propose
+  /\ tprop' = [epoch |-> e.epoch, thr |-> e.thr, period |-> e.period, genesis |-> e.genesis, seed |-> e.prevSeed,
+               joining |-> e.join, remaining |-> e.remain, leaving |-> e.leave, leader |-> e.leader]
   /\ LET ns == Range(e.nodes) old == Range(e.remain) \cup Range(e.leave) IN
      /\ tst' = [n \in ns |-> IF e.epoch = 2 /\ n \in old THEN "Prev" ELSE "Fresh"]
      /\ tseen' = [n \in ns |-> {}]
@@ -77,16 +79,13 @@ StepCmd(e) ==
                     [] e.cmd = "execute" -> IF pre = "Proposing" THEN "Executing" ELSE pre
                     [] OTHER -> pre
          A1 == If(e.st # expSt, Conf(e, "status after command differs from the specification"))
-         A2 == If(e.cmd = "propose" /\
-                  (e.terms.join # scen.join \/ e.terms.remain # scen.remain \/ e.terms.leave # scen.leave
-                   \/ e.terms.thr # scen.thr \/ e.terms.period # scen.period \/ e.terms.genesis # scen.genesis
-                   \/ e.terms.epoch # scen.epoch),
+         A2 == If(e.cmd = "propose" /\ TermsOf(e.terms) # tprop,
                   Conf(e, "leader stored other terms than it was asked to propose"))
          pid == CASE e.cmd = "propose" -> {PktP} [] e.cmd = "accept" -> {PktA(n)} [] e.cmd = "execute" -> {PktE} [] OTHER -> {}
      IN /\ alarms' = alarms \cup A1 \cup A2
         /\ tst' = [tst EXCEPT ![n] = e.st]
         /\ tseen' = IF e.st = expSt /\ e.st # pre THEN [tseen EXCEPT ![n] = @ \cup pid] ELSE tseen
-        /\ tprop' = IF e.cmd = "propose" THEN TermsOf(e.terms) ELSE tprop
+        /\ tprop' = tprop
   /\ UNCHANGED <<scen, thash, tsent, texpect, tfin>>
 
 \* ---- Process.Packet
@@ -94,7 +93,9 @@ StepG(e) ==
   /\ e.ev = "G"
   /\ LET to == e.to
          pid == <<e.typ, e.origin>>
-         known == pid \in tseen[to]
+         \* a copy of a packet the node itself originated is known to it (SeenPackets is filled when it gossips)
+         own == (e.typ \in {"P", "E"} /\ to = scen.leader) \/ (e.typ = "A" /\ e.origin = to)
+         known == pid \in tseen[to] \/ own
          r == IF known \/ tprop = NoTerms THEN [ok |-> TRUE, st |-> tst[to], setup |-> FALSE, store |-> FALSE]
               ELSE ApplyPacket(to, pid, tst[to], tprop)
          A0 == If(~known /\ tprop = NoTerms, Conf(e, "gossip before any proposal"))
@@ -118,7 +119,8 @@ StepBSend(e) ==
          \* (a relay may be logged before the delivery that caused it: checked at End)
          A1 == {}
          A2 == If(m \in tsent, Conf(e, "the same bundle was sent twice to the same node"))
-         A3 == If(e.kind \notin {"D", "R"}, Conf(e, "bundle kind outside the black-box envelope (complaints were raised)"))
+         A3 == If(e.kind \notin {"D", "R", "J"} \/ (e.kind = "J" /\ (own /\ ~NeedJust(e.from, tprop, SLate))),
+                  Conf(e, "bundle outside the black-box envelope (a complaint was raised against a timely dealer)"))
      IN /\ alarms' = alarms \cup A1 \cup A2 \cup A3
         /\ tsent' = tsent \cup {m}
         /\ thash' = IF own THEN [thash EXCEPT ![e.from] = @ \cup {b}] ELSE thash
@@ -175,7 +177,7 @@ StepComplete(e) ==
            M3 == If(~e.onPoly, {Alarm("ShareOnPoly", e, "share.V*G differs from the group's public polynomial at the share index", "", "")})
            M4 == UNION {
                    {Alarm("SameGroup", e, "nodes hold different groups", f,
-                          IF f = "transition"
+                          IF f = "TransitionTime"
                             THEN (IF explained /\ tfin[a].explained THEN "completion-straddles-round-boundary" ELSE "not-from-local-clock")
                             ELSE "none")
                       : f \in DiffFields(g, tfin[a].g)}
